@@ -1,7 +1,133 @@
 /-
-  C16 — factorial, binomial, Fibonacci/Lucas, remove, primality.  Property theorems only.
+  C16 — factorial, binomial, Fibonacci/Lucas, remove, primality.  Property theorems only; helper
+  lemmas live in MpirProofs/Lemmas/Numth.lean.  The table theorems are about the REGENERATED tables
+  of Mpir/Gen/NumthTabs.lean (rewritten from /repo's source by every `bin/check C16`); the other
+  theorems are about the executable models of Mpir/Model/Numth.lean, which the correspondence run
+  compares with the real library (and with the executable specs) on every check.
 -/
 import MpirProofs.Lemmas.Numth
 namespace Mpir.Numth
+open Mpir Mpir.Gen.NumthTabs
+
+/-! ## Tables (every entry, `decide +kernel`) -/
+
+/-- `__gmp_fib_table`: FIB_TABLE_LIMIT + 2 limbs; entry 0 is F[-1] = 1 and entry i+1 is F[i]. -/
+theorem fib_table_ok :
+    fibTable.length = FIB_TABLE_LIMIT + 2 ∧ fibTab 0 = 1 ∧
+    (∀ i < FIB_TABLE_LIMIT + 1, fibTab (i + 1) = Nat.fib i) ∧ (∀ x ∈ fibTable, x < B) := by
+  decide +kernel
+example : FIB_TABLE 93 = 12200160415121876738 ∧ FIB_TABLE 93 = Nat.fib 93 := by decide +kernel
+
+/-- FIB_TABLE_LIMIT and FIB_TABLE_LUCNUM_LIMIT are exactly the largest indices whose Fibonacci / Lucas
+    number fits a limb (L[n] = F[n] + 2F[n-1]). -/
+theorem fib_table_limits_ok :
+    B ≤ Nat.fib (FIB_TABLE_LIMIT + 1) ∧ FIB_TABLE_LUCNUM_LIMIT ≤ FIB_TABLE_LIMIT ∧
+    (∀ n ≤ FIB_TABLE_LUCNUM_LIMIT, FIB_TABLE n + 2 * fibTab n < B) ∧
+    B ≤ Nat.fib (FIB_TABLE_LUCNUM_LIMIT + 1) + 2 * Nat.fib FIB_TABLE_LUCNUM_LIMIT := by
+  decide +kernel
+example : lucTab 92 = 16860207025497407047 := by decide +kernel
+
+/-- `ONE_LIMB_FACTORIAL_TABLE`: entry i is i!, all entries are limbs, and the next factorial is not. -/
+theorem fac_table_ok :
+    (∀ i < facTable.length, facTable.getD i 0 = i.factorial) ∧ (∀ x ∈ facTable, x < B) ∧
+    B ≤ facTable.length.factorial := by
+  decide +kernel
+example : facTable.getD 20 0 = 2432902008176640000 := by decide +kernel
+
+/-- `__gmp_oddfac_table` (table + extension): entry i is the odd part of i! modulo 2^64; the first
+    ODD_FACTORIAL_TABLE_LIMIT + 1 entries are the exact odd parts and ODD_FACTORIAL_TABLE_MAX is the last of them. -/
+theorem oddfac_table_ok :
+    oddfacTable.length = ODD_FACTORIAL_TABLE_LIMIT + 1 ∧
+    (oddfacTable ++ oddfacExtTable).length = ODD_FACTORIAL_EXTTABLE_LIMIT + 1 ∧
+    (∀ i < ODD_FACTORIAL_EXTTABLE_LIMIT + 1, oddfacTab i = oddPart i.factorial % B) ∧
+    (∀ i < ODD_FACTORIAL_TABLE_LIMIT + 1, oddPart i.factorial < B) ∧
+    B ≤ oddPart (ODD_FACTORIAL_TABLE_LIMIT + 1).factorial ∧
+    oddfacTab ODD_FACTORIAL_TABLE_LIMIT = ODD_FACTORIAL_TABLE_MAX := by
+  decide +kernel
+example : oddfacTab 10 = 14175 ∧ 14175 * 2 ^ 8 = Nat.factorial 10 := by decide +kernel
+
+open Nat in
+/-- `__gmp_odd2fac_table`: entry i is (2i+1)!!, exact; ODD_DOUBLEFACTORIAL_TABLE_MAX is the last entry
+    and the next odd double factorial does not fit a limb. -/
+theorem odd2fac_table_ok :
+    2 * odd2facTable.length = ODD_DOUBLEFACTORIAL_TABLE_LIMIT + 1 ∧
+    (∀ i < odd2facTable.length, odd2facTab i = (2 * i + 1)‼) ∧ (∀ x ∈ odd2facTable, x < B) ∧
+    odd2facTab (ODD_DOUBLEFACTORIAL_TABLE_LIMIT / 2) = ODD_DOUBLEFACTORIAL_TABLE_MAX ∧
+    B ≤ (ODD_DOUBLEFACTORIAL_TABLE_LIMIT + 2)‼ := by
+  simp only [← doubleFactorial_eq]
+  decide +kernel
+example : odd2facTab 4 = 945 := by decide +kernel
+
+/-- `__gmp_fac2cnt_table`: entry i is 2(i+1) - popcount(2(i+1)), i.e. the exponent of 2 in (2i+2)!;
+    it serves every n ≤ TABLE_LIMIT_2N_MINUS_POPC_2N through index n/2 - 1, and that entry is n - popcount n. -/
+theorem fac2cnt_table_ok :
+    TABLE_LIMIT_2N_MINUS_POPC_2N = 2 * fac2cntTable.length + 1 ∧
+    (∀ i < fac2cntTable.length, fac2cntTab i = 2 * (i + 1) - popcount (2 * (i + 1))) ∧
+    (∀ n ≤ TABLE_LIMIT_2N_MINUS_POPC_2N, 2 ≤ n → fac2cntTab (n / 2 - 1) = n - popcount n) := by
+  decide +kernel
+example : fac2cntTab 3 = 7 ∧ Nat.factorial 8 = 2 ^ 7 * 315 := by decide +kernel
+
+/-- `__gmp_limbroots_table`: entry i is the largest x with x^(i+1) < 2^64. -/
+theorem limbroots_table_ok :
+    limbrootsTable.length = 8 ∧
+    ∀ i < 8, limbrootsTable.getD i 0 ^ (i + 1) < B ∧ B ≤ (limbrootsTable.getD i 0 + 1) ^ (i + 1) := by
+  decide +kernel
+example : log_n_max 65535 = 4 ∧ log_n_max 65536 = 3 := by decide +kernel
+
+/-- `facinv` (ONE_LIMB_ODD_FACTORIAL_INVERSES_TABLE): entry i is the inverse modulo 2^64 of the odd
+    part of (i+2)!  (x * inv ≡ 1 mod B). -/
+theorem fac_inverse_table_ok :
+    facinvTable.length + 2 ≤ ODD_FACTORIAL_EXTTABLE_LIMIT + 1 ∧
+    (∀ i < facinvTable.length, oddfacTab (i + 2) * facinvTab i % B = 1) ∧ (∀ x ∈ facinvTable, x < B) := by
+  decide +kernel
+example : oddfacTab 3 = 3 ∧ facinvTab 1 = 0xaaaaaaaaaaaaaaab ∧ 3 * 0xaaaaaaaaaaaaaaab = 2 * B + 1 := by decide +kernel
+
+/-- `bin2kk`, `bin2kkinv`, `fac2bin`: for k = ODD_CENTRAL_BINOMIAL_OFFSET + i ≤ ODD_CENTRAL_BINOMIAL_TABLE_LIMIT,
+    binomial(2k,k) = bin2kk[i] * 2^fac2bin[i] with bin2kk[i] an odd limb, and bin2kkinv[i] is its inverse mod 2^64. -/
+theorem bin2kk_table_ok :
+    bin2kkTable.length = ODD_CENTRAL_BINOMIAL_TABLE_LIMIT - ODD_CENTRAL_BINOMIAL_OFFSET + 1 ∧
+    bin2kkinvTable.length = bin2kkTable.length ∧ fac2binTable.length = bin2kkTable.length ∧
+    (∀ i < bin2kkTable.length,
+      bin2kkTable.getD i 0 * 2 ^ fac2binTable.getD i 0 = binom (2 * (i + ODD_CENTRAL_BINOMIAL_OFFSET)) (i + ODD_CENTRAL_BINOMIAL_OFFSET) ∧
+      bin2kkTable.getD i 0 % 2 = 1 ∧ bin2kkTable.getD i 0 < B ∧
+      bin2kkTable.getD i 0 * bin2kkinvTable.getD i 0 % B = 1) := by
+  decide +kernel
+example : bin2kkTable.getD 0 0 * 2 ^ 3 = 10400600 ∧ binom 26 13 = 10400600 := by decide +kernel
+
+/-- `primes[]` of next_prime_candidate.c: strictly increasing, and the listed numbers are exactly the
+    odd primes up to the last entry (997). -/
+theorem primes_table_ok :
+    List.Pairwise (· < ·) npcPrimes ∧
+    ∀ p ≤ npcPrimes.getLastD 0, p ∈ npcPrimes ↔ (3 ≤ p ∧ p.Prime) := by
+  simp only [← isPrimeTD_iff]
+  decide +kernel
+example : 997 ∈ npcPrimes ∧ 991 ∈ npcPrimes ∧ 993 ∉ npcPrimes ∧ npcPrimes.getLastD 0 = 997 := by decide +kernel
+
+/-- `PP` (gmp-impl.h): the product of the odd primes below PP_FIRST_OMITTED, a limb; the trial-division
+    list of pprime_p.c:75-93 consists of exactly those primes. -/
+theorem pp_table_ok :
+    PP = [3, 5, 7, 11, 13, 17, 19, 23, 29, 31, 37, 41, 43, 47, 53].prod ∧ PP < B ∧
+    (∀ p < PP_FIRST_OMITTED, p ∈ [3, 5, 7, 11, 13, 17, 19, 23, 29, 31, 37, 41, 43, 47, 53] ↔ (3 ≤ p ∧ p.Prime)) ∧
+    PP_FIRST_OMITTED.Prime := by
+  simp only [← isPrimeTD_iff]
+  decide +kernel
+example : PP % 53 = 0 ∧ PP % 59 ≠ 0 := by decide +kernel
+
+/-- `mod64`, `mod63`, `mod65` of likely_prime_p.c (the filter of `n_is_square`): a 0 entry is never a
+    quadratic residue, so the filter rejects no square.  mod64 and mod65 flag exactly the residues;
+    mod63 additionally flags the non-residues 14, 35, 56 (harmless: the exact square root test follows). -/
+theorem sqres_tables_ok :
+    (∀ r < 64, mod64.getD r 0 = 1 ↔ ∃ x < 64, x * x % 64 = r) ∧
+    (∀ r < 63, (∃ x < 63, x * x % 63 = r) → mod63.getD r 0 = 1) ∧
+    (∀ r < 63, mod63.getD r 0 = 1 → (r = 14 ∨ r = 35 ∨ r = 56 ∨ ∃ x < 63, x * x % 63 = r)) ∧
+    (∀ r < 65, mod65.getD r 0 = 1 ↔ ∃ x < 65, x * x % 65 = r) ∧
+    mod64.length = 64 ∧ mod63.length = 63 ∧ mod65.length = 65 := by
+  decide +kernel
+example : mod64.getD 17 0 = 1 ∧ 9 * 9 % 64 = 17 ∧ mod63.getD 14 0 = 1 := by decide +kernel
+
+/-- the small table of mpz_primorial_ui -/
+theorem primorial_table_ok : ∀ i < primorialTable.length, primorialTable.getD i 0 = primorial i := by
+  decide +kernel
+example : primorialTable.getD 4 0 = 6 := by decide +kernel
 
 end Mpir.Numth
